@@ -19,6 +19,13 @@ Theorem C20_release_on_every_path : forall thr fb l,
   forallb (fun o => o_inflight o =? 0) (trun_tower thr fb 0 l) = true.
 Proof. exact c20_no_leak. Qed.
 
+(** from any number in flight and for any requests: what is in flight at the end is what was in flight at the
+    start plus one per future dropped before completion; response, inner error, rejection and fallback all give
+    the admission back *)
+Theorem C20_inflight_accounting : forall thr fb l k,
+  last_inflight k (trun_tower thr fb k l) = k + dropped (trun_tower thr fb k l).
+Proof. intros thr fb l k. exact (c20_inflight_accounting thr fb l k). Qed.
+
 Example C20_example :
   trun_tower 1 1 0 [mkQ ReadyErr false; mkQ PendOk false; mkQ PendErr true; mkQ ReadyOk false] =
   [mkTO 1 TRErr 0 1; mkTO 1 TROkInner 0 3; mkTO 1 TRDropped 1 1; mkTO 0 TROkFallback 1 0].
